@@ -1061,6 +1061,34 @@ pub mod memc_tcp {
     }
 }
 
+// ---- memcache_server/runtime_builder.rs: the functions start threads and runtimes and are outside any contract; the ONE
+// statement of each that turns the parsed command line into the server configuration is sliced out (R14) and checked:
+// the configured item size limit, connection limit and backlog are the ones handed to the server (C13; part of C20).
+pub mod runtime_builder {
+    use vstd::prelude::*;
+    use super::*;
+    pub mod memcache_server { pub use super::super::memc_tcp; }     // the path the sliced statement uses
+    // stand-ins for the parsed command line (clap / byte_unit): only what the slices read.  ASSUMED.
+    pub struct Byte { pub v: u64 }
+    impl Byte { pub fn as_u64(&self) -> (r: u64) ensures r == self.v { self.v } }
+    pub struct MemcrsArgs { pub connection_limit: u32, pub item_size_limit: Byte, pub backlog_limit: u32 }
+    pub open spec fn config_plumbed(config: MemcrsArgs, c: memc_tcp::MemcacheServerConfig) -> bool {
+        c.item_memory_limit == config.item_size_limit.v as u32 && c.connection_limit == config.connection_limit && c.listen_backlog == config.backlog_limit
+    }
+    pub fn current_thread_config(config: MemcrsArgs) -> (r: memc_tcp::MemcacheServerConfig)
+        ensures config_plumbed(config, r), // @ob C13 runtime.current_thread.config_plumbed
+    {
+//@stmt memcache_server/runtime_builder.rs | - | create_current_thread_server | let memc_config =
+        memc_config
+    }
+    pub fn threadpool_config(config: MemcrsArgs) -> (r: memc_tcp::MemcacheServerConfig)
+        ensures config_plumbed(config, r), // @ob C13 runtime.threadpool.config_plumbed
+    {
+//@stmt memcache_server/runtime_builder.rs | - | create_threadpool_server | let memc_config =
+        memc_config
+    }
+}
+
 // ---- server/timer.rs: the clock only ever moves forward by one (what the "monotone clock" assumption rests on) ----
 pub mod timer {
     use vstd::prelude::*;
